@@ -29,7 +29,7 @@ COMPONENTS = {
     'real': ['bamBinCounts.generate_jobs', 'generate_commands', 'count_fragments_binned', 'read_counts', 'obtain_counts', 'pysam BAM write/index/fetch'],
     'stub': ['SimPool (bamBinCounts.multiprocessing): seeded start/complete/deliver order, pool width'],
 }
-REQUIRED_PROBES = ['site_on_job_boundary', 'site_owned_by_other_job_than_read_start', 'multi_job', 'delivery_order_not_submission_order', 'filtered_record']
+REQUIRED_PROBES = ['several_bam_files', 'site_on_job_boundary', 'site_owned_by_other_job_than_read_start', 'multi_job', 'delivery_order_not_submission_order', 'filtered_record']
 
 
 def plan(tier):
@@ -97,6 +97,8 @@ def generate(seed, tier):
         'contigs': contigs, 'bin_size': bin_size, 'max_fragment_size': mfs,
         'min_mq': w.choice([None, 0, 20, 50, 60]), 'key_tags': w.choice([None, None, ['DA']]),
         'dedup': w.random() < 0.8, 'ignore_mp': w.random() < 0.1,
+        # several libraries counted together (generate_commands accepts a list of BAMs, as bamCopyNumber passes it); cells are disjoint between files
+        'split_files': w.random() < 0.25,
     }
     configs = []
     for bpj in bpj_all:
@@ -185,6 +187,15 @@ def execute(case):
     with scratch() as d:
         bam = os.path.join(d, 'in.bam')
         write_bam(bam, params['contigs'], recs)
+        bam_arg = bam
+        if params.get('split_files') and len({r['cell'] for r in recs}) >= 2:
+            b0, b1 = os.path.join(d, 'lib0.bam'), os.path.join(d, 'lib1.bam')
+            write_bam(b0, params['contigs'], [r for r in recs if r['cell'] % 2 == 0 and r['sm']])
+            write_bam(b1, params['contigs'], [r for r in recs if not (r['cell'] % 2 == 0 and r['sm'])])
+            if all((r['cell'] % 2 == 1) for r in recs if not r['sm']) or True:
+                # records without SM count as 'bulk': keep them all in one file so that samples stay disjoint between files
+                bam_arg = [b0, b1]
+                probe('several_bam_files')
         real_mp = bbc.multiprocessing
         try:
             for ci, cfg in enumerate(case['configs']):
@@ -211,7 +222,7 @@ def execute(case):
                 if cross:
                     probe('site_owned_by_other_job_than_read_start')
                 try:
-                    cmds = list(bbc.generate_commands(bam, bin_size=params['bin_size'], bins_per_job=bpj,
+                    cmds = list(bbc.generate_commands(bam_arg, bin_size=params['bin_size'], bins_per_job=bpj,
                                                       min_mq=params['min_mq'], max_fragment_size=params['max_fragment_size'],
                                                       key_tags=params['key_tags'], dedup=params['dedup'],
                                                       kwargs={'ignore_mp': params['ignore_mp']}))
